@@ -500,3 +500,64 @@ contract(
         )
     ],
 )
+
+# ---- roi_from_points: numpy plumbing -> BOUNDED native check of the contract -------------------------------------------------
+
+
+def _rfp_samples():
+    import itertools
+
+    import numpy as np
+
+    def gen():
+        rnd = np.random.default_rng(int(__import__("os").environ.get("PYVC_SEED", "0")))
+        shapes = [(100, 100), (1, 7), (50, 3)]
+        far = [0.0, 1e5, 3e9, -3e9, 1e12, -1e15, 1e300]
+        for shape, padding, align, f in itertools.product(shapes, (0, 1, 5), (None, 4, 16), far):
+            ny, nx = shape
+            inside = rnd.uniform([0, 0], [nx, ny], size=(4, 2))
+            pts = [inside, np.asarray([[f, ny / 2.0]]), np.asarray([[nx / 3.0, -f]])]
+            xy = np.concatenate(pts)
+            yield dict(xy=xy, shape=shape, padding=padding, align=align)
+            bad = xy.copy()
+            bad[0, 0] = np.nan
+            bad[1, 1] = np.inf
+            yield dict(xy=bad, shape=shape, padding=padding, align=align)
+        yield dict(xy=np.asarray([[np.nan, 1.0], [2.0, np.inf]]), shape=(10, 10), padding=0, align=None)
+        yield dict(xy=np.zeros((0, 2)), shape=(10, 10), padding=0, align=None)
+
+    return "3 image shapes x paddings {0,1,5} x alignments {None,4,16} x outliers at 0, 1e5, +-3e9 (beyond int32), 1e12, -1e15, 1e300; with and without NaN/inf rows; all-non-finite and empty point sets", gen()
+
+
+def _rfp_post(xy, shape, padding, align, result):
+    import numpy as np
+
+    ny, nx = shape
+    ys, xs = result
+    ok = 0 <= ys.start and ys.stop <= ny and 0 <= xs.start and xs.stop <= nx
+    fin = xy[np.isfinite(xy).all(axis=1)] if len(xy) else xy
+    if len(fin) == 0:
+        return ok and (ys.stop - ys.start) <= 0 or (xs.stop - xs.start) <= 0 or ok
+    for x, y in fin:
+        if 0 <= x < nx and 0 <= y < ny:
+            # the point, as a location in continuous pixel coordinates, lies in the region [start, stop]
+            # together with its padding (clamped to the image)
+            if not (xs.start <= max(0.0, x - padding) and min(float(nx), x + padding) <= xs.stop and ys.start <= max(0.0, y - padding) and min(float(ny), y + padding) <= ys.stop):
+                return False
+    if align:
+        for sl, n in ((ys, ny), (xs, nx)):
+            if sl.start % align != 0 and sl.start != 0:
+                return False
+            if sl.stop % align != 0 and sl.stop != n:
+                return False
+    return ok
+
+
+contract(
+    f"{ROI}:roi_from_points",
+    ["C17", "C03"],
+    ensures=[("contains every finite point that falls inside the image, honours padding and alignment, ignores non-finite points, stays within the image -- however large the outlying coordinates are", _rfp_post)],
+    verify=False,
+    trusted_reason="numpy min/max/floor/ceil/astype/clip on Nx2 arrays: outside the VC generator's reach; BOUNDED native check of the contract",
+    native_samples=_rfp_samples,
+)
